@@ -4,6 +4,7 @@ import PenneModel.Scope.Labels
 import PenneModel.Place.Syntax
 import PenneModel.Scope.Vars
 import PenneModel.Lex.Model
+import PenneModel.Lit.Model
 /-
   Model driver: one request per line on stdin (`OP<TAB>payload`), one answer per line on stdout.
   Only model files are imported (no Mathlib, no proof files), so this links as a native executable.
@@ -44,6 +45,49 @@ def showTok : Lex.Tok → String
 def showLTok (t : Lex.LTok) : String :=
   showTok t.tok ++ "@" ++ toString t.start ++ "-" ++ toString t.stop ++ "/" ++ toString t.line ++ ":" ++ toString t.col
 
+def tyOfName (s : String) : Option Lex.Ty :=
+  match s with
+  | "i8" => some .i8 | "i16" => some .i16 | "i32" => some .i32 | "i64" => some .i64 | "i128" => some .i128
+  | "u8" => some .u8 | "u16" => some .u16 | "u32" => some .u32 | "u64" => some .u64 | "u128" => some .u128
+  | "usize" => some .usize | "char8" => some .char8 | "bool" => some .bool | "void" => some .void
+  | _ => none
+
+def c09 (payload : String) : String :=
+  match Sexp.parse payload with
+  | some (.list [.atom "lit", .atom ty, .atom neg, .str sp]) =>
+    match tyOfName ty with
+    | none => "bad-request"
+    | some t =>
+      match Lex.lex sp with
+      | [lt] =>
+        match lt.tok with
+        | .err c => "error " ++ toString c
+        | tok =>
+          match Lit.primary tok with
+          | none => "not-a-literal"
+          | some node0 =>
+            let node := if neg == "1" then Lit.negate node0 else node0
+            match Lit.outcome (2 ^ 64) t (neg == "1") sp with
+            | .error c => "error " ++ toString c
+            | .typeMismatch => "mismatch"
+            | .value p l =>
+              "value " ++ toString p ++ " lint=" ++ (if l then "1" else "0") ++ " denotes=" ++ toString (Lit.denotes node)
+                ++ " inrange=" ++ (if Lit.inRange t (Lit.denotes node) then "1" else "0")
+      | _ => "not-one-token"
+  | some (.list [.atom "str", .str sp]) =>
+    let toks := Lex.lex sp
+    match toks.find? (fun t => match t.tok with | .err _ => true | _ => false) with
+    | some e => match e.tok with | .err c => "error " ++ toString c | _ => "?"
+    | none =>
+      let bytes := toks.foldl (fun acc t => match t.tok with
+        | .str bs => acc ++ bs
+        | .chr b => acc ++ [b]
+        | _ => acc) []
+      if toks.all (fun t => match t.tok with | .str _ => true | .chr _ => true | _ => false) then
+        "bytes " ++ String.join (bytes.map hexByte)
+      else "not-literals"
+  | _ => "bad-request"
+
 def handle (op payload : String) : String :=
   match op with
   | "C04" =>
@@ -63,6 +107,7 @@ def handle (op payload : String) : String :=
         "codes=" ++ showCodes (sortNat (Vars.goFunction cs ps b)) ++ " labels=" ++ showCodes (sortNat (Labels.goBody b))
       | _, _, _ => "bad-request"
     | _ => "bad-request"
+  | "C09" => c09 payload
   | "lex" =>
     match Sexp.parse payload with
     | some (.str cs) => " ".intercalate ((Lex.lex cs).map showLTok)
